@@ -444,7 +444,10 @@ def purity_to_prob(purity: float) -> float:
     if purity < 1:
         g2 = 1 - purity
         b = 2 * (1 - (1 / g2))
-        return 1 - (-b - (b**2 - 4) ** 0.5) / 2
+        # Smaller root of x^2 + bx + 1 found from the larger one (the product
+        # of the roots is 1), this avoids taking the difference of two large
+        # numbers when the purity is close to 1
+        return 1 - 2 / (-b + (b**2 - 4) ** 0.5)
     return 1
 
 
